@@ -872,7 +872,8 @@ impl Stdfs {
     /// assert_vfs_remove_all!(vfs, &tmpdir);
     /// ```
     pub fn is_dir<T: AsRef<Path>>(path: T) -> bool {
-        match fs::symlink_metadata(path.as_ref()) {
+        let path = unwrap_or_false!(Stdfs::abs(path));
+        match fs::symlink_metadata(path) {
             Ok(x) => !x.file_type().is_symlink() && x.is_dir(),
             _ => false,
         }
@@ -895,7 +896,8 @@ impl Stdfs {
     /// assert_vfs_remove_all!(vfs, &tmpdir);
     /// ```
     pub fn is_file<T: AsRef<Path>>(path: T) -> bool {
-        match fs::symlink_metadata(path.as_ref()) {
+        let path = unwrap_or_false!(Stdfs::abs(path));
+        match fs::symlink_metadata(path) {
             Ok(x) => !x.file_type().is_symlink() && x.is_file(),
             _ => false,
         }
